@@ -169,6 +169,10 @@ def run(ctx):
         if len(out.samples) < 4 and errors and kept:
             out.sample({"lines": lines, "kept": kept, "errors": errors})
     derived_header_cases(ctx, out, rng)
+    out.evaluations += 1
+    out.failures += eval_app_sort_order()
+    out.distribution["header parsed before / after the application defines a sort order class"] += 1
+    out.nontrivial.add(("app-sort-order",))
     reqs += constructor_cases(ctx, out)      # the same lines in their validation mode, for the model
     edit_reqs = edit_history_cases(ctx, out)
     mo = ctx.driver.run(reqs)
@@ -306,6 +310,38 @@ def eval_derived(lines, args, next_step):
                          "before": {k: before[k] for k in before if before[k] != after[k]},
                          "after": {k: after[k] for k in before if before[k] != after[k]}})
     return steps, failures
+
+
+_APP_ORDER = {}
+
+
+def eval_app_sort_order():
+    """What the header grammar recognises is the library's, not the application's: the same lines parse the same way before
+    and after the application has defined a sort order of its own (a sub-class of Coordinate).  The first call in a
+    process parses, defines the class, parses again; later calls compare with that first parse."""
+    from maflib.header import MafHeader
+    from maflib.sort_order import Coordinate
+    from maflib.validation import ValidationStringency as VS
+    lines = ["#version gdc-1.0.0", "#annotation.spec gdc-1.0.0", "#sort.order AppReverseCoordinate", "#sort.order Unknown"]
+
+    def look():
+        with impl.LogCapture():
+            h = MafHeader.from_lines(list(lines), validation_stringency=VS.Silent)
+        return {"errors": impl.errs_json(h.validation_errors), "printed": str(h), "sort_order": type(h.sort_order()).__name__}
+    if "before" not in _APP_ORDER:
+        _APP_ORDER["before"] = look()
+
+        class AppReverseCoordinate(Coordinate):
+            @classmethod
+            def name(cls):
+                return "AppReverseCoordinate"
+        _APP_ORDER["cls"] = AppReverseCoordinate
+    after = look()
+    if after != _APP_ORDER["before"]:
+        return [{"kind": "app-sort-order", "lines": lines, "before": _APP_ORDER["before"], "after": after,
+                 "what": "the same header lines are parsed, diagnosed or printed differently once the application has defined a SortOrder sub-class of its own (differs on %s)" % (
+                     [k for k in after if after[k] != _APP_ORDER["before"][k]])}]
+    return []
 
 
 def derived_header_cases(ctx, out, rng):
@@ -767,6 +803,12 @@ def replay_case(ctx, failure):
     lines = failure.get("lines")
     if not isinstance(lines, list):
         return None
+    if failure.get("kind") == "app-sort-order":
+        fails = eval_app_sort_order()
+        print("replay C13: MafHeader.from_lines(%s, Silent); then the application defines class AppReverseCoordinate(Coordinate); then the same lines are parsed again" % lines)
+        for x in fails:
+            print("  oracle: %s\n    before: %s\n    after:  %s" % (x["what"], x["before"], x["after"]))
+        return fails
     if failure.get("kind") in ("derived-aliasing", "derived-ranking"):
         steps = failure.get("steps")
         if steps is None or "from_reader_args" not in failure:
